@@ -245,9 +245,16 @@ def _table(spec, ctx):
             dist = cu.GaussianKDE(bw_method=bw)
             expect = {c: 'GaussianKDE' for c in cols}
             opts = {c: ('bw_method', bw) for c in cols}
-        else:
+        elif rng.random() < 0.5:
             dist = cu.Univariate(parametric=cu.ParametricType.PARAMETRIC, bounded=cu.BoundedType.UNBOUNDED)
             expect = {c: ('GaussianUnivariate', 'StudentTUnivariate') for c in cols}
+        elif rng.random() < 0.5:
+            dist = cu.Univariate([cu.GaussianUnivariate, cu.UniformUnivariate])          # options given positionally
+            expect = {c: ('GaussianUnivariate', 'UniformUnivariate') for c in cols}
+        else:
+            dist = cu.TruncatedGaussian(-1e7, 1e7)                                        # positional bounds
+            expect = {c: 'TruncatedGaussian' for c in cols}
+            opts = {c: ('min', -1e7) for c in cols}
     elif form == 'dict':
         dist = {}
         for c in cols:
